@@ -259,6 +259,8 @@ def projects(draw, size_bias=None, max_tags=10, long_names=False):
         inst_used[scope].add(inst)
         tags.append({"name": name, "scope": scope, "type": typ, "dims": dims, "instance": inst,
                      "access": draw(st.sampled_from([0, 0, 2, 3])), "alias": draw(st.integers(0, 5)) == 0})
+        if typ == "BOOL":
+            tags[-1]["bitpos"] = draw(st.sampled_from([0, 0, 1, 3, 7, 2, 5]))
     # module tags (kept by the library as user tags)
     struct_types = [u["name"] for u in udts if u.get("string") is None]
     for k in range(draw(st.sampled_from([0, 0, 1, 2]))):
